@@ -297,12 +297,14 @@ func specHeaderOK(h Header, s State) bool {
 
 //@ func HeaderSize
 //@   props C01 C06
+//@   sig h -> n
 //@   requires [len] h.Length >= 0
 //@   ensures  [size] n == specHdrLen(h.Length, h.Masked)
 //@   assigns nothing
 
 //@ func CheckHeader
 //@   props C03 C05 C15
+//@   sig h s -> _
 //@   requires [dom] h.OpCode < 16
 //@   ensures  [iff] (result == nil) == specHeaderOK(h, s)
 //@   ensures  [name-op]   result == ErrProtocolOpCodeReserved ==> ruleReservedOp(h)
@@ -340,6 +342,7 @@ func lemmaCloseRoundTrip(code StatusCode, reason string) bool {
 
 //@ func CheckCloseFrameData
 //@   props C03 C08 C15
+//@   sig code reason -> _
 //@   ensures [accept] codeAccept(code) ==> ((result == nil) == validUTF8(reason))
 //@   ensures [refuse] !codeAccept(code) && !codeOpen(code) ==> result != nil
 //@   ensures [utf8]   result == nil ==> validUTF8(reason)
@@ -348,6 +351,7 @@ func lemmaCloseRoundTrip(code StatusCode, reason string) bool {
 
 //@ func PutCloseFrameBody
 //@   props C03
+//@   sig p code reason ->
 //@   requires [room] len(p) >= 2+len(reason)
 //@   requires [noalias] !strViewOf(reason, p)
 //@   ensures  [code] specBE16(p[0], p[1]) == uint16(code)
@@ -356,6 +360,7 @@ func lemmaCloseRoundTrip(code StatusCode, reason string) bool {
 
 //@ func NewCloseFrameBody
 //@   props C03 C08
+//@   sig code reason -> _
 //@   ensures [len]  len(result) == min(2+len(reason), 125)
 //@   ensures [code] specBE16(result[0], result[1]) == uint16(code)
 //@   ensures [reason] forall(0, len(result)-2, func(k int) bool { return result[2+k] == reason[k] })
@@ -364,6 +369,7 @@ func lemmaCloseRoundTrip(code StatusCode, reason string) bool {
 
 //@ func ParseCloseFrameData
 //@   props C03 C17 C15
+//@   sig payload -> code reason
 //@   ensures [short] len(payload) < 2 ==> code == 0 && len(reason) == 0
 //@   ensures [code]  len(payload) >= 2 ==> uint16(code) == specBE16(payload[0], payload[1])
 //@   ensures [len]   len(payload) >= 2 ==> len(reason) == len(payload)-2
@@ -373,6 +379,7 @@ func lemmaCloseRoundTrip(code StatusCode, reason string) bool {
 
 //@ func ParseCloseFrameDataUnsafe
 //@   props C03 C15
+//@   sig payload -> code reason
 //@   ensures [short] len(payload) < 2 ==> code == 0 && len(reason) == 0
 //@   ensures [code]  len(payload) >= 2 ==> uint16(code) == specBE16(payload[0], payload[1])
 //@   ensures [len]   len(payload) >= 2 ==> len(reason) == len(payload)-2
@@ -381,6 +388,7 @@ func lemmaCloseRoundTrip(code StatusCode, reason string) bool {
 
 //@ func lemmaCloseRoundTrip
 //@   props C03
+//@   sig code reason -> _
 //@   ensures [roundtrip] result
 
 // ---------------------------------------------------------------------------
@@ -417,6 +425,7 @@ func lemmaCloseRoundTrip(code StatusCode, reason string) bool {
 
 //@ func WriteHeader
 //@   props C01 C06 C08
+//@   sig w h -> _
 //@   requires [valid] validHdr(h)
 //@   requires [out]   outOK(w)
 //@   ensures  [one]   outCalls(w) == old(outCalls(w))+1
@@ -427,6 +436,7 @@ func lemmaCloseRoundTrip(code StatusCode, reason string) bool {
 
 //@ func ReadHeader
 //@   props C01 C15 C16
+//@   sig r -> h err
 //@   requires [stream] VStreamOK(r)
 //@   ensures  [cut2]   inEnd(r)-old(inPos(r)) < 2 ==> err != nil
 //@   ensures  [cut]    inEnd(r)-old(inPos(r)) >= 2 && inEnd(r)-old(inPos(r)) < VSpecNeed(inByte(r, old(inPos(r))+1)) ==> err != nil
@@ -451,6 +461,7 @@ func specMask64(m [4]byte) uint64 {
 
 //@ func Cipher
 //@   props C02 C15
+//@   sig payload mask offset ->
 //@   locals n:int i:int mpos:int ln:int rn:int i:int i:int m:uint32 m2:uint64 j:int i:int chunk:[]byte p:uint64 p2:uint64
 //@   requires [off] 0 <= offset
 //@   ensures  [xor] forall(0, len(payload), func(k int) bool { return payload[k] == old(payload[k])^mask[VMaskIdx(offset, k)] })
@@ -477,6 +488,7 @@ func specMask64(m [4]byte) uint64 {
 
 //@ func WriteFrame
 //@   props C01 C06 C16
+//@   sig w f -> _
 //@   requires [valid] validHdr(f.Header) && outOK(w) && len(f.Payload) <= 1<<47
 //@   ensures  [calls] result == nil ==> outCalls(w) == old(outCalls(w))+2
 //@   ensures  [len]   result == nil ==> outLen(w) == old(outLen(w))+specHdrLen(f.Header.Length, f.Header.Masked)+len(f.Payload)
@@ -499,6 +511,7 @@ func sameSlice(a, b []byte) bool {
 
 //@ func MaskFrameInPlaceWith
 //@   props C02 C06
+//@   sig f m -> _
 //@   ensures [hdr]  sameHdrExceptMask(result.Header, f.Header) && result.Header.Masked && result.Header.Mask == m
 //@   ensures [same] sameSlice(result.Payload, f.Payload)
 //@   ensures [xor]  forall(0, len(f.Payload), func(k int) bool { return f.Payload[k] == old(f.Payload[k])^m[VMaskIdx(0, k)] })
@@ -506,6 +519,7 @@ func sameSlice(a, b []byte) bool {
 
 //@ func MaskFrameInPlace
 //@   props C02 C06
+//@   sig f -> _
 //@   ensures [hdr]  sameHdrExceptMask(result.Header, f.Header) && result.Header.Masked
 //@   ensures [same] sameSlice(result.Payload, f.Payload)
 //@   ensures [xor]  forall(0, len(f.Payload), func(k int) bool { return f.Payload[k] == old(f.Payload[k])^result.Header.Mask[VMaskIdx(0, k)] })
@@ -513,6 +527,7 @@ func sameSlice(a, b []byte) bool {
 
 //@ func UnmaskFrameInPlace
 //@   props C02 C15
+//@   sig f -> _
 //@   ensures [hdr]  sameHdrExceptMask(result.Header, f.Header) && !result.Header.Masked && result.Header.Mask == [4]byte{}
 //@   ensures [same] sameSlice(result.Payload, f.Payload)
 //@   ensures [xor]  forall(0, len(f.Payload), func(k int) bool { return f.Payload[k] == old(f.Payload[k])^f.Header.Mask[VMaskIdx(0, k)] })
@@ -520,6 +535,7 @@ func sameSlice(a, b []byte) bool {
 
 //@ func MaskFrameWith
 //@   props C02 C17
+//@   sig f mask -> _
 //@   requires [len] len(f.Payload) <= 1<<47
 //@   ensures [hdr]  sameHdrExceptMask(result.Header, f.Header) && result.Header.Masked && result.Header.Mask == mask
 //@   ensures [fresh] fresh(result.Payload) && len(result.Payload) == len(f.Payload)
@@ -528,6 +544,7 @@ func sameSlice(a, b []byte) bool {
 
 //@ func MaskFrame
 //@   props C02 C17
+//@   sig f -> _
 //@   requires [len] len(f.Payload) <= 1<<47
 //@   ensures [hdr]  sameHdrExceptMask(result.Header, f.Header) && result.Header.Masked
 //@   ensures [fresh] fresh(result.Payload) && len(result.Payload) == len(f.Payload)
@@ -536,6 +553,7 @@ func sameSlice(a, b []byte) bool {
 
 //@ func UnmaskFrame
 //@   props C02 C17
+//@   sig f -> _
 //@   requires [len] len(f.Payload) <= 1<<47
 //@   ensures [hdr]  sameHdrExceptMask(result.Header, f.Header) && !result.Header.Masked && result.Header.Mask == [4]byte{}
 //@   ensures [fresh] fresh(result.Payload) && len(result.Payload) == len(f.Payload)
@@ -544,6 +562,7 @@ func sameSlice(a, b []byte) bool {
 
 //@ func NewFrame
 //@   props C01 C06
+//@   sig op fin p -> _
 //@   ensures [f] result.Header.Fin == fin && result.Header.OpCode == op && result.Header.Rsv == 0 && !result.Header.Masked && result.Header.Length == int64(len(p)) && sameSlice(result.Payload, p)
 //@   assigns nothing
 
@@ -552,6 +571,7 @@ func VSpecHeaderOK(h Header, s State) bool { return specHeaderOK(h, s) }
 
 //@ func ReadFrame
 //@   props C01 C15 C16
+//@   sig r -> f err
 //@   requires [stream] VStreamOK(r)
 //@   ensures  [hdr]    err == nil ==> f.Header == VSpecDecode(r, old(inPos(r))) && int64(len(f.Payload)) == f.Header.Length
 //@   ensures  [pos]    err == nil ==> inPos(r) == old(inPos(r))+VSpecNeed(inByte(r, old(inPos(r))+1))+len(f.Payload)
@@ -586,6 +606,7 @@ func dig(c byte) int { return int(c - '0') }
 
 //@ func pow
 //@   props C10 C15
+//@   sig a b -> _
 //@   locals p:int
 //@   requires [b] 0 <= b
 //@   ensures [p0] a == 10 && b == 0 ==> result == 1
@@ -602,6 +623,7 @@ func dig(c byte) int { return int(c - '0') }
 // for tokens of up to three digits (status codes, version numbers), longer ones may wrap.
 //@ func asciiToInt
 //@   props C10 C09 C15
+//@   sig bts -> ret err
 //@   locals n:int i:int
 //@   ensures [err]  (err == nil) == (len(bts) >= 1 && allDigits(bts))
 //@   ensures [zero] err != nil ==> ret == 0
@@ -629,6 +651,7 @@ func noSepAfter(b []byte, i int, sep byte) bool {
 // bsplit3 cuts at the first two separators, or returns the input whole when there are fewer.
 //@ func bsplit3
 //@   props C09 C10 C15
+//@   sig bts sep -> b1 b2 b3
 //@   ensures [whole] isNilSlice(b2) ==> isNilSlice(b3) && sameSlice(b1, bts)
 //@   ensures [fewer] isNilSlice(b2) ==> forall(0, len(bts), func(i int) bool { return bts[i] != sep || noSepAfter(bts, i, sep) })
 //@   ensures [three] !isNilSlice(b2) ==> len(b1)+len(b2)+len(b3)+2 == len(bts) && sameSlice(b1, bts[:len(b1)]) && sameSlice(b2, bts[len(b1)+1:len(b1)+1+len(b2)]) && sameSlice(b3, bts[len(b1)+len(b2)+2:])
@@ -646,6 +669,7 @@ func specVersionAt(b []byte, dot int) bool {
 
 //@ func httpParseVersion
 //@   props C09 C10 C15
+//@   sig bts -> major minor ok
 //@   ensures [shape] ok ==> len(bts) >= 8 && exists(5, len(bts), func(d int) bool { return specVersionAt(bts, d) })
 //@   ensures [v8]    ok && len(bts) == 8 ==> bts[6] == '.' && major == dig(bts[5]) && minor == dig(bts[7])
 //@   ensures [conv]  len(bts) == 8 && specVersionAt(bts, 6) ==> ok
@@ -662,6 +686,7 @@ func specFieldsAt(line []byte, a, b int) bool {
 
 //@ func httpParseResponseLine
 //@   props C10 C15
+//@   sig line -> resp err
 //@   ensures [lit101] err == nil && resp.status == 101 ==> exists(0, len(line), func(a int) bool { return specFieldsAt(line, a, a+4) && is101(line[a+1:a+4]) })
 //@   ensures [errv]   err != nil ==> err == ErrMalformedResponse
 //@   assigns nothing
@@ -684,6 +709,7 @@ func noByteAfter(s string, i int, c byte) bool {
 
 //@ func hostport
 //@   props C10 C15
+//@   sig host defaultPort -> hostname addr
 //@   requires [host] forall(0, len(host), func(k int) bool { return host[k] != ']' || noByteAfter(host, k, ']') })
 //@   ensures [explicit] exists(0, len(host), func(k int) bool { return host[k] == ':' && forall(k, len(host), func(j int) bool { return host[j] != ']' }) }) ==> addr == host
 //@   ensures [name]     exists(0, len(host), func(k int) bool { return host[k] == ':' && forall(k, len(host), func(j int) bool { return host[j] != ']' }) }) ==> len(hostname) < len(host) && host[len(hostname)] == ':' && noByteAfter(host, len(hostname), ':') && forall(0, len(hostname), func(k int) bool { return hostname[k] == host[k] })
@@ -695,6 +721,7 @@ func isBlank(c byte) bool { return c == ' ' || c == '\t' }
 
 //@ func btrim
 //@   props C09 C10 C15
+//@   sig bts -> _
 //@   locals i:int j:int
 //@   ensures [sub]   sameBase(result, bts) || len(bts) == 0
 //@   ensures [range] 0 <= offOf(result)-offOf(bts) && offOf(result)-offOf(bts)+len(result) <= len(bts)
@@ -726,6 +753,7 @@ func specCanon(prev byte, c byte) byte {
 
 //@ func canonicalizeHeaderKey
 //@   props C09 C15
+//@   sig k ->
 //@   locals upper:bool i:int c:byte
 //@   ensures [canon] forall(0, len(k), func(i int) bool { return k[i] == specCanon(iteByte(i == 0, '-', old(k[i-1])), old(k[i])) })
 //@   assigns bytes(k)
@@ -738,6 +766,7 @@ func specCanon(prev byte, c byte) byte {
 // Request line: method SP request-target SP HTTP-version.
 //@ func httpParseRequestLine
 //@   props C09 C15
+//@   sig line -> req err
 //@   ensures [fields] err == nil ==> specFieldsAt(line, len(req.method), len(req.method)+1+len(req.uri)) && sameSlice(req.method, line[:len(req.method)]) && sameSlice(req.uri, line[len(req.method)+1:len(req.method)+1+len(req.uri)])
 //@   ensures [version] err == nil ==> len(line)-len(req.method)-len(req.uri)-2 >= 8 && isHTTPSlash(line[len(req.method)+len(req.uri)+2:])
 //@   ensures [v11]   err == nil && len(line)-len(req.method)-len(req.uri)-2 == 8 ==> req.major == dig(line[len(line)-3]) && req.minor == dig(line[len(line)-1])
@@ -753,6 +782,7 @@ func specHeaderAt(line []byte, c, ks, ke, vs, ve int) bool {
 
 //@ func httpParseHeaderLine
 //@   props C09 C10 C15
+//@   sig line -> k v ok
 //@   ensures [none]  !ok ==> noSep(line, ':') && isNilSlice(k) && isNilSlice(v)
 //@   ensures [some]  ok ==> !noSep(line, ':')
 //@   ensures [parts] ok && len(k) > 0 && len(v) > 0 ==> sameBase(k, line) && sameBase(v, line) && 0 <= offOf(k)-offOf(line) && offOf(k)-offOf(line)+len(k) < offOf(v)-offOf(line) && offOf(v)-offOf(line)+len(v) <= len(line)
@@ -770,6 +800,7 @@ func specHeaderAt(line []byte, c, ks, ke, vs, ve int) bool {
 // bytes it was cut from (those live in a pooled read buffer).
 //@ func btsSelectProtocol
 //@   props C17 C09 C15
+//@   sig h check -> ret ok
 //@   ensures [copy] freshStr(ret)
 //@   ensures [none] !ok ==> len(ret) == 0
 //@   assigns nothing
@@ -777,11 +808,13 @@ func specHeaderAt(line []byte, c, ks, ke, vs, ve int) bool {
 // RSV bit packing (C13): r1 is the most significant of the three bits.
 //@ func Rsv
 //@   props C13
+//@   sig r1 r2 r3 -> rsv
 //@   ensures [bits] rsv == byte(iteInt(r1, 4, 0))|byte(iteInt(r2, 2, 0))|byte(iteInt(r3, 1, 0))
 //@   assigns nothing
 
 //@ func RsvBits
 //@   props C13
+//@   sig rsv -> r1 r2 r3
 //@   ensures [bits] r1 == (rsv&4 != 0) && r2 == (rsv&2 != 0) && r3 == (rsv&1 != 0)
 //@   assigns nothing
 
@@ -804,6 +837,7 @@ func specAccept(n []byte, i int) byte {
 // The client accepts exactly the value the server computes from the key it was sent.
 //@ func checkAcceptFromNonce
 //@   props C10 C15
+//@   sig accept nonce -> _
 //@   requires [nonce] len(nonce) == 24
 //@   ensures  [iff]   result == (len(accept) == 28 && forall(0, 28, func(k int) bool { return accept[k] == specAccept(nonce, k) }))
 //@   assigns nothing
@@ -811,26 +845,31 @@ func specAccept(n []byte, i int) byte {
 // Frame constructors (C01, C08): final, unmasked, the given payload, the right opcode.
 //@ func NewTextFrame
 //@   props C01 C08
+//@   sig p -> _
 //@   ensures [f] result.Header.Fin && result.Header.OpCode == OpText && result.Header.Rsv == 0 && !result.Header.Masked && result.Header.Length == int64(len(p)) && sameSlice(result.Payload, p)
 //@   assigns nothing
 
 //@ func NewBinaryFrame
 //@   props C01 C08
+//@   sig p -> _
 //@   ensures [f] result.Header.Fin && result.Header.OpCode == OpBinary && result.Header.Rsv == 0 && !result.Header.Masked && result.Header.Length == int64(len(p)) && sameSlice(result.Payload, p)
 //@   assigns nothing
 
 //@ func NewPingFrame
 //@   props C01 C08
+//@   sig p -> _
 //@   ensures [f] result.Header.Fin && result.Header.OpCode == OpPing && result.Header.Rsv == 0 && !result.Header.Masked && result.Header.Length == int64(len(p)) && sameSlice(result.Payload, p)
 //@   assigns nothing
 
 //@ func NewPongFrame
 //@   props C01 C08
+//@   sig p -> _
 //@   ensures [f] result.Header.Fin && result.Header.OpCode == OpPong && result.Header.Rsv == 0 && !result.Header.Masked && result.Header.Length == int64(len(p)) && sameSlice(result.Payload, p)
 //@   assigns nothing
 
 //@ func NewCloseFrame
 //@   props C01 C08
+//@   sig p -> _
 //@   ensures [f] result.Header.Fin && result.Header.OpCode == OpClose && result.Header.Rsv == 0 && !result.Header.Masked && result.Header.Length == int64(len(p)) && sameSlice(result.Payload, p)
 //@   assigns nothing
 
@@ -911,6 +950,7 @@ func bwCalls(b *bufio.Writer) int                { return outCalls(wrOf(b)) }
 // The request line the dialer writes: GET, the URL's request-URI, HTTP/1.1 (C10).
 //@ func httpWriteUpgradeRequest
 //@   props C10
+//@   sig bw u nonce protocols extensions header host ->
 //@   locals i:int p:string
 //@   requires [bw] bw != nil && u != nil
 //@   ensures  [get]  len(ufWritten(bw, old(bwCalls(bw)))) >= 4 && ufWritten(bw, old(bwCalls(bw)))[0] == 'G' && ufWritten(bw, old(bwCalls(bw)))[1] == 'E' && ufWritten(bw, old(bwCalls(bw)))[2] == 'T' && ufWritten(bw, old(bwCalls(bw)))[3] == ' '
@@ -944,6 +984,7 @@ func ufParamsContent(p httphead.Parameters) int { return 0 }
 // and a copy of the parameters in fresh memory, never the slices of the header being scanned.
 //@ func matchSelectedExtensions$1
 //@   props C17 C15 C10
+//@   sig -> ok
 //@   locals want:httphead.Option
 //@   ensures [own]  ok ==> len(received) == old(len(received))+1 && fresh(ufParamsBuf(received[len(received)-1].Parameters))
 //@   ensures [params] ok ==> ufParamsContent(received[len(received)-1].Parameters) == ufParamsContent(old(option).Parameters)
@@ -970,6 +1011,7 @@ func ufParamsContent(p httphead.Parameters) int { return 0 }
 
 //@ func Dialer.Upgrade
 //@   props C10 C16 C17 C15
+//@   sig d conn u -> br hs err
 //@   locals bw:*bufio.Writer nonce:[]byte err:error sl:[]byte resp:httpResponseLine onStatusError:func(statusint,reason[]byte,respio.Reader) headerSeen:byte line:[]byte e:error k:[]byte v:[]byte ok:bool want:string onHeader:func(key[]byte,value[]byte)(errerror) e:error
 //@   requires [conn] conn != nil && u != nil
 //@   ensures  [lineerr]  err == nil ==> forall(old(linePos(ufReaderOf(io.Reader(conn)))), linePos(ufReaderOf(io.Reader(conn))), func(i int) bool { return ufLineErr(ufReaderOf(io.Reader(conn)), i) == nil })
@@ -1022,6 +1064,7 @@ func ufOptsOwned(opts []httphead.Option, n int) bool { return true }
 // The server's extension selection keeps copies, not views of the pooled read buffer.
 //@ func btsSelectExtensions
 //@   props C09 C17
+//@   sig h selected check -> _ _
 //@   ensures [own] ufOptsOwned(result0, len(selected))
 //@   assigns nothing
 
@@ -1053,6 +1096,7 @@ func ufOptsOwned(opts []httphead.Option, n int) bool { return true }
 
 //@ func Upgrader.Upgrade
 //@   props C09 C16 C15 C17
+//@   sig u conn -> hs err
 //@   locals br:*bufio.Reader bw:*bufio.Writer rl:[]byte req:httpRequestLine header:handshakeHeader onRequest:func(uri[]byte)error headerSeen:byte nonce:[]byte line:[]byte e:error k:[]byte v:[]byte ok:bool onHost:func(host[]byte)error custom:func([]byte)(string,bool) check:func([]byte)bool ok:bool f:func(httphead.Option)(httphead.Option,error) custom:func([]byte,[]httphead.Option)([]httphead.Option,bool) check:func(httphead.Option)bool ok:bool onHeader:func(key[]byte,value[]byte)error code:int rej:*ConnectionRejectedError ok:bool
 //@   callsite httpWriteResponseUpgrade requires [allseen] headerSeen == 31 && err == nil && len(nonce) == 24
 //@   callsite httpWriteResponseError requires [rejhdr] dynTypeIs(err, "*ws.ConnectionRejectedError") ==> header[1] == err.(*ConnectionRejectedError).header
@@ -1113,6 +1157,7 @@ func ufHijacked(w http.ResponseWriter) *bufio.ReadWriter { return nil }
 
 //@ func HTTPUpgrader.Upgrade
 //@   props C09 C15
+//@   sig u r w -> conn rw hs err
 //@   locals nonce:string u:string c:string v:string check:func(string)bool ps:[]string i:int ok:bool f:func(httphead.Option)(httphead.Option,error) h:string check:func(httphead.Option)bool xs:[]string i:int ok:bool t:time.Duration header:handshakeHeader h:http.Header code:int rej:*ConnectionRejectedError ok:bool
 //@   callsite httpWriteResponseError requires [rejhdr] dynTypeIs(err, "*ws.ConnectionRejectedError") ==> header[1] == err.(*ConnectionRejectedError).header
 //@   callsite httpWriteResponseError requires [usrhdr] header[0] == HandshakeHeader(HandshakeHeaderHTTP(u.Header)) || u.Header == nil
@@ -1135,6 +1180,7 @@ func ufHijacked(w http.ResponseWriter) *bufio.ReadWriter { return nil }
 // the key, in one write.
 //@ func writeAccept
 //@   props C09
+//@   sig bw nonce -> _ _
 //@   requires [nonce] bw != nil && len(nonce) == 24
 //@   ensures  [one]    bwCalls(bw) == old(bwCalls(bw))+1 && len(ufWritten(bw, old(bwCalls(bw)))) == 28
 //@   ensures  [accept] forall(0, 28, func(i int) bool { return ufWritten(bw, old(bwCalls(bw)))[i] == specAccept(nonce, i) })
